@@ -268,6 +268,7 @@ class Unit:
                     rec["scenario"] = replay(w)
                 except Exception as e:
                     rec["scenario_error"] = f"{type(e).__name__}: {e}"
+        self._selftest(rec, replay)
         if fnq in self.functions:
             self.functions[fnq]["obligations"] += 1
         if len(self.results) < 3 or verdict != "discharged":
@@ -278,6 +279,22 @@ class Unit:
         self.results.append(rec)
         return verdict == "discharged"
 
+    def _selftest(self, rec, replay):
+        """PYVC_REPLAY_SELFTEST=1 (tools/replay_selftest.py): attach the scenario every replay callable builds from an EMPTY
+        witness, so that it can be run on the unchanged tree (it must hold there, or it would confirm anything)."""
+        if replay is None or not os.environ.get("PYVC_REPLAY_SELFTEST"):
+            return
+        seen = self.__dict__.setdefault("_selftest_seen", set())
+        if id(replay) in seen:
+            return
+        seen.add(id(replay))
+        try:
+            sc = replay({})
+        except Exception:
+            return
+        if isinstance(sc, dict) and sc.get("code"):
+            rec["selftest_scenario"] = sc
+
     def static(self, name: str, ok: bool, fnq: str, detail: str, replay=None, witness=None):
         """Syntactic / call-graph obligation decided by the front end (no solver)."""
         rec = {"name": f"{self.prop}.{name}", "function": fnq, "verdict": "discharged" if ok else "refuted",
@@ -286,6 +303,7 @@ class Unit:
             rec["witness"] = witness or {}
             if replay is not None:
                 rec["scenario"] = replay(witness or {})
+        self._selftest(rec, replay)
         self.results.append(rec)
         return ok
 
